@@ -143,6 +143,8 @@ struct Built {
     is_fst: bool,
     is_merged: bool,
     is_curated: bool,
+    /// FstDictionary::new called directly on entries whose ids are not pairwise distinct (known finding)
+    id_collision: bool,
 }
 
 struct Cx {
@@ -329,7 +331,7 @@ fn build(cx: &mut Cx, s: &Scenario) -> Option<Vec<Built>> {
                     cx.rep.case(&format!("W {gname}"), format!("W {}", ws.iter().map(|w| cps(w)).collect::<Vec<_>>().join(", ")).trim());
                 }
                 let word_set = words.iter().cloned().collect();
-                out.push(Built { def: def.clone(), gname, dict, words, word_set, is_fst: matches!(def.ty.as_str(), "F" | "FM" | "CF"), is_merged: def.ty == "X", is_curated: def.ty.starts_with('C') });
+                out.push(Built { def: def.clone(), gname, dict, words, word_set, is_fst: matches!(def.ty.as_str(), "F" | "FM" | "CF"), is_merged: def.ty == "X", is_curated: def.ty.starts_with('C'), id_collision: def.ty == "F" && !ids_distinct(&def.entries) });
             }
             Err(m) => {
                 cx.rep.fail("build_panic", format!("building dictionary {} ({}) panicked: {m}", def.name, def.ty), scenario_json(s, None));
@@ -434,11 +436,14 @@ fn run_scenario(cx: &mut Cx, s: &Scenario) {
         if !s.malformed {
             for g in &s.agree {
                 let present: Vec<&String> = g.iter().filter(|n| answers.contains_key(*n)).collect();
-                for w in present.windows(2) {
+                for i in 1..present.len() {
+                    let w = [present[0], present[i]];
                     let (a, b) = (&answers[w[0]], &answers[w[1]]);
                     if a != b {
-                        let (ta, tb) = (&built[by_name[w[0]]].def.ty, &built[by_name[w[1]]].def.ty);
-                        cx.rep.fail("backends_disagree", format!("{}({}) and {}({}) hold the same entries but answer {:?} differently: [{}] vs [{}]", w[0], ta, w[1], tb, query.q, exact_line(a), exact_line(b)), fail_input.clone());
+                        let (ba, bb) = (&built[by_name[w[0]]], &built[by_name[w[1]]]);
+                        let (ta, tb) = (&ba.def.ty, &bb.def.ty);
+                        let class = if ba.id_collision || bb.id_collision { "fst_new_id_collision" } else { "backends_disagree" };
+                        cx.rep.fail(class, format!("{}({}) and {}({}) hold the same entries but answer {:?} differently: [{}] vs [{}]", w[0], ta, w[1], tb, query.q, exact_line(a), exact_line(b)), fail_input.clone());
                     }
                 }
             }
@@ -571,7 +576,8 @@ fn fuzzy_oracle(cx: &mut Cx, b: &Built, query: &Query, qn: &[char], ql_chars: &[
         let ws: String = w.iter().collect();
         // a real dictionary word, with that word's metadata
         if !b.word_set.contains(w) || !b.dict.words_iter().any(|x| x == w.as_slice()) && !b.is_curated {
-            cx.rep.fail("fuzzy_not_a_word", format!("{who}: result {ws:?} for {:?} is not a word of the dictionary (words_iter)", query.q), fail_input.clone());
+            let class = if b.id_collision { "fst_new_id_collision" } else { "fuzzy_not_a_word" };
+            cx.rep.fail(class, format!("{who}: result {ws:?} for {:?} is not a word of the dictionary (words_iter)", query.q), fail_input.clone());
         } else if !b.is_merged && b.dict.get_word_metadata(w) != Some(md) {
             cx.rep.fail("fuzzy_metadata", format!("{who}: result {ws:?} carries metadata that differs from get_word_metadata({ws:?})"), fail_input.clone());
         }
@@ -714,7 +720,11 @@ fn variant_query(r: &mut Rng, base: &str, alphabet: &[char]) -> String {
 }
 
 /// the standard family of back-ends over one entry list (ids pairwise distinct => all must agree)
-fn family(entries: Vec<(String, usize)>, split: usize, with_direct_fst: bool) -> (Vec<DictDef>, Vec<Vec<String>>) {
+fn family(entries: Vec<(String, usize)>, split: usize) -> (Vec<DictDef>, Vec<Vec<String>>) {
+    // FstDictionary::new sorts unstably and dedups by spelling: which metadata survives for a spelling
+    // given twice with different metadata is unspecified, so such lists are not handed to it
+    let mut meta_of: HashMap<&str, usize> = HashMap::new();
+    let with_direct_fst = entries.iter().all(|(w, m)| *meta_of.entry(w.as_str()).or_insert(*m) == *m);
     let (p1, p2) = entries.split_at(split.min(entries.len()));
     let d = |name: &str, ty: &str, entries: &[(String, usize)], children: &[&str]| DictDef { name: name.into(), ty: ty.into(), entries: entries.to_vec(), children: children.iter().map(|s| s.to_string()).collect() };
     let mut dicts = vec![
@@ -855,7 +865,7 @@ pub fn run(a: &Args, corpus: &[Value]) {
             entries.push((w, r.below(16)));
         }
         let distinct = ids_distinct(&entries);
-        let (dicts, agree) = family(entries.clone(), r.below(entries.len() + 1), distinct);
+        let (dicts, agree) = family(entries.clone(), r.below(entries.len() + 1));
         let mut queries = vec![];
         for _ in 0..a.scale(25, 40) {
             let base = if entries.is_empty() || r.chance(1, 10) { r.pick(&words).clone() } else { r.pick(&entries).0.clone() };
@@ -871,7 +881,7 @@ pub fn run(a: &Args, corpus: &[Value]) {
         let alphabet: &[char] = *r.pick(&[&['a', 'b'][..], &['a', 'b', 'A'][..], &['a', 'B', '\''][..], &['a', '\'', '\u{2019}'][..], &['i', 'İ', 'I'][..], &['σ', 'Σ', 'ς'][..], &['é', 'É', 'e'][..]]);
         let entries = small_alphabet_words(&mut r, alphabet, 6, 4);
         let distinct = ids_distinct(&entries);
-        let (dicts, agree) = family(entries.clone(), r.below(entries.len() + 1), distinct);
+        let (dicts, agree) = family(entries.clone(), r.below(entries.len() + 1));
         let mut queries = vec![];
         for _ in 0..8 {
             let len = r.below(6);
